@@ -154,7 +154,7 @@ func runBlocks(t *testing.T, f *blockFixture, rng *hx.Rng, p *hx.Proto, nTx int)
 	ws := f.senders()
 	total := 0
 	blockOracle = p.Oracle
-	var replayPool [][]byte // bytes of transactions that were admitted in earlier blocks
+	var replayPool []genTx // transactions that were admitted in earlier blocks
 	for total < nTx {
 		ctx := c.ctx()
 		baseFee := c.s.ChainApp.FeeMarketKeeper().GetBaseFee(ctx).BigInt()
@@ -178,12 +178,16 @@ func runBlocks(t *testing.T, f *blockFixture, rng *hx.Rng, p *hx.Proto, nTx int)
 		for i := 0; i < n; i++ {
 			f.heavy = heavy && rng.Chance(2, 3)
 			if len(replayPool) > 0 && rng.Chance(1, 25) { // replay previously accepted bytes
-				txs = append(txs, genTx{bytes: replayPool[rng.Intn(len(replayPool))], kind: "replay", replay: true, toW: -1, sdIdx: -1})
+				r := replayPool[rng.Intn(len(replayPool))]
+				r.kind, r.replay = "replay", true
+				txs = append(txs, r)
 				continue
 			}
 			txs = append(txs, f.genTx(rng, baseFee, ws))
 			if rng.Chance(1, 30) { // the same bytes twice in one block
-				txs = append(txs, genTx{bytes: txs[len(txs)-1].bytes, kind: "replay-same-block", replay: true, toW: -1, sdIdx: -1})
+				r := txs[len(txs)-1]
+				r.kind, r.replay = "replay-same-block", true
+				txs = append(txs, r)
 			}
 		}
 		raw := make([][]byte, len(txs))
@@ -199,13 +203,14 @@ func runBlocks(t *testing.T, f *blockFixture, rng *hx.Rng, p *hx.Proto, nTx int)
 		blockBloom := ethtypes.Bloom{}
 		for i, g := range txs {
 			o := c.observe(res.TxResults[i])
-			if g.replay {
-				p.Count("kind:" + g.kind)
-				if o.code == 0 || o.hasEthEv {
-					p.Oracle("replay", "previously accepted transaction bytes were admitted again (%s, code %d)", g.kind, o.code)
+			if g.replay && i > 0 && g.kind == "replay-same-block" {
+				// the same bytes right after themselves: if the first copy was admitted the second must not be
+				prev := c.observe(res.TxResults[i-1])
+				if (prev.hasEthEv || (g.cosmos && prev.code == 0)) && (o.code == 0 || o.hasEthEv) {
+					p.Oracle("replay", "the same transaction bytes were admitted twice in one block (code %d)", o.code)
 				}
-				total++
-				continue
+			} else if g.replay && (o.code == 0 || o.hasEthEv) {
+				p.Oracle("replay", "previously accepted transaction bytes were admitted again (%s, code %d)", g.kind, o.code)
 			}
 			if !g.cosmos {
 				cl := obsClass(o)
@@ -215,7 +220,7 @@ func runBlocks(t *testing.T, f *blockFixture, rng *hx.Rng, p *hx.Proto, nTx int)
 					}
 					admittedCnt++
 					admittedBy[g.sender]++
-					replayPool = append(replayPool, g.bytes)
+					replayPool = append(replayPool, g)
 					if len(replayPool) > 64 {
 						replayPool = replayPool[1:]
 					}
